@@ -4,8 +4,8 @@
      {a:"Reset", beh}                                            a fresh, never written document
      {a:<action>, i, o}                                          o = the REAL state after the step, projected into the spec's
                                                                  observable record (Import.tla: doc, meta, pcF/pcG/pcW, out)
-       actions: ExtSet ExtDelete SGMeta Feed FeedBegin FeedRel Cache Get GetBegin GetRel Write WriteBegin WriteRel;
-       i = body version (ExtSet), captured event (Feed, FeedBegin, Cache), write number (the three Write actions), else 0
+       actions: ExtSet ExtDelete ExtUx SGMeta Feed FeedBegin FeedRel Cache Get GetBegin GetRel Write WriteBegin WriteRel;
+       i = body version (ExtSet), user-xattr version (ExtUx), captured event (Feed, FeedBegin, Cache), write number (the three Write actions), else 0
      {a:"End", drained}                                          the harness delivered every mutation not yet delivered to the
                                                                  import listener (logged as Feed lines) and read the document
      {a:"Abort", why}                                            the harness could not execute the behaviour any further
@@ -25,10 +25,10 @@ ASSUME TLCSet(2, {}) /\ TLCSet(3, {}) /\ TLCSet(4, {})
 S == Trace[l]
 Ev(a) == l <= TraceLen /\ Trace[l].a = a /\ l' = l + 1
 
-MetaOf(m) == [has |-> m.has, syncCas |-> m.syncCas, crc |-> m.crc,
+MetaOf(m) == [has |-> m.has, syncCas |-> m.syncCas, crc |-> m.crc, ucrc |-> m.ucrc,
               revs |-> [n \in 1..Len(m.revs) |-> [p |-> m.revs[n].p, body |-> m.revs[n].body, del |-> m.revs[n].del]],
               cur |-> m.cur, seq |-> m.seq, cv |-> m.cv, mouCas |-> m.mouCas, mouPcas |-> m.mouPcas]
-OOf(x) == [doc |-> [cas |-> x.doc.cas, body |-> x.doc.body, del |-> x.doc.del], meta |-> MetaOf(x.meta),
+OOf(x) == [doc |-> [cas |-> x.doc.cas, body |-> x.doc.body, del |-> x.doc.del, ux |-> x.doc.ux], meta |-> MetaOf(x.meta),
            pcF |-> x.pcF, pcG |-> x.pcG, pcW |-> x.pcW,
            out |-> [acc |-> x.out.acc, vst |-> x.out.vst, vrev |-> x.out.vrev, vbody |-> x.out.vbody, wres |-> x.out.wres]]
 Logged == o' = OOf(S.o)
@@ -38,9 +38,9 @@ TInit == Init /\ l = 1 /\ bi = -1 /\ diverged = FALSE /\ ended = FALSE /\ draine
 Reset == /\ Ev("Reset")
          /\ o' = [doc |-> NoDoc, meta |-> NoMeta, pcF |-> "idle", pcG |-> "idle", pcW |-> "idle", out |-> NoOut]
          /\ h' = [evs |-> <<>>, fl |-> NoSnap, gl |-> NoSnap, wl |-> NoW, nv |-> 0, sq |-> 0]
-         /\ last' = [who |-> "none", body |-> 0, del |-> TRUE] /\ nExt' = 0 /\ nSG' = 0 /\ nMeta' = 0
+         /\ last' = [who |-> "none", body |-> 0, del |-> TRUE] /\ lastUx' = 0 /\ nExt' = 0 /\ nUx' = 0 /\ nSG' = 0 /\ nMeta' = 0
          /\ evOwn' = <<>> /\ fed' = {} /\ inF' = 0 /\ inW' = 0 /\ dirtyG' = FALSE /\ dirtyW' = FALSE
-         /\ pre' = [act |-> "Init", i |-> 0, settled |-> TRUE, revs |-> <<>>, seq |-> 0, cas |-> 0, cv |-> 0, has |-> FALSE, cur |-> 0, mouCas |-> 0]
+         /\ pre' = [act |-> "Init", i |-> 0, settled |-> TRUE, revs |-> <<>>, seq |-> 0, cas |-> 0, cv |-> 0, has |-> FALSE, cur |-> 0, mouCas |-> 0, ucrc |-> 0]
          /\ nFeed' = 0 /\ nCache' = 0 /\ nGet' = 0 /\ hist' = <<>>
          /\ bi' = S.beh /\ diverged' = FALSE /\ ended' = FALSE /\ drained' = TRUE
 
@@ -50,12 +50,13 @@ TUnch == UNCHANGED <<cnt, hist, bi, diverged, ended, drained>>
 GhostOf(a) ==
   CASE a = "ExtSet"    -> GhostExt([who |-> "ext", body |-> S.i, del |-> FALSE])
     [] a = "ExtDelete" -> GhostExt([who |-> "ext", body |-> 0, del |-> TRUE])
+    [] a = "ExtUx"     -> GhostExtUx(S.i)
     [] a = "SGMeta"    -> GhostSGMeta
     [] a \in {"Feed", "FeedBegin", "FeedRel"} -> GhostFeed(a, S.i)
     [] a = "Cache"     -> GhostCache(S.i)
     [] a \in {"Get", "GetBegin", "GetRel"} -> GhostGet(a)
     [] a \in {"Write", "WriteBegin", "WriteRel"} -> GhostWrite(a)
-Acts == {"ExtSet", "ExtDelete", "SGMeta", "Feed", "FeedBegin", "FeedRel", "Cache", "Get", "GetBegin", "GetRel", "Write", "WriteBegin", "WriteRel"}
+Acts == {"ExtSet", "ExtDelete", "ExtUx", "SGMeta", "Feed", "FeedBegin", "FeedRel", "Cache", "Get", "GetBegin", "GetRel", "Write", "WriteBegin", "WriteRel"}
 
 (* ---- pass P ---- *)
 PStep == /\ l <= TraceLen /\ S.a \in Acts /\ l' = l + 1
@@ -89,6 +90,7 @@ PAccept == PrintHWM /\ PrintT(<<"PVIOL", ToJson(TLCGet(2))>>)
 ImplOf(a) ==
   CASE a = "ExtSet"     -> OKExtSet /\ S.i = nExt + 1 /\ ImplExtSet(S.i)
     [] a = "ExtDelete"  -> ~o.doc.del /\ ReadWriteIdle /\ ImplExtDelete
+    [] a = "ExtUx"      -> ~o.doc.del /\ ReadWriteIdle /\ S.i = nUx + 1 /\ ImplExtUx(S.i)
     [] a = "SGMeta"     -> o.meta.has /\ ~o.doc.del /\ ImplSGMeta
     [] a = "Feed"       -> o.pcF = "idle" /\ S.i \in 1..Len(h.evs) /\ ImplFeed(S.i)
     [] a = "FeedBegin"  -> o.pcF = "idle" /\ S.i \in 1..Len(h.evs) /\ ImplFeedBegin(S.i)
